@@ -349,3 +349,38 @@ Theorem C04_model_is_source_cli_train_model : forall (Scr Sub Sp Pa Mo Th : Type
   = Cli.cli_train_model L params a.
 Proof. exact C04SourceCli.src_cli_train_model_is_model. Qed.
 Print Assumptions C04_model_is_source_cli_train_model.
+
+(* ---- the argument-handling glue of train_model is what the source says NOW ----
+   `src_tm_get_args` is the WHOLE function get_args of /repo's current batchie/cli/train_model.py (parser.parse_args() is the primitive that
+   yields the raw namespace; the statements after it - class lookup by name, required-argument annotations, cast of the KEY=VALUE
+   parameters - are translated), `src_cli_train_model_cmd` is main() once more as a whole command, in which get_args() is the translated
+   get_args and `args.model_cls( **args.model_params)` is `construct` on the two namespace attributes; both re-translated on every run (configurations
+   ARGS_GET_ARGS_TM / ARGS_CMD_TM -> Generated/SrcCliArgs.v).  Model: the last part of Model/Cli.v; `I` = introspection.get_class /
+   get_required_init_args_with_annotations (linked to their own translations in Props/C18.v), `P` = s.lower(), int(s), float(s), the call of
+   another annotation object; cast_dict_to_type is the translated function (Props/C18.v).  The statements hold for EVERY such record. *)
+From Batchie Require Proofs.C04SourceArgs Proofs.C18SourceIntrospect Generated.SrcCliArgs.
+Theorem C04_model_is_source_cli_args_get_args : forall (Cls F O : Type) (I : Cli.introspect Cls) (P : Cli.pyprims F O)
+  (raw : Cli.tm_ns Cls F O),
+  SrcCliArgs.src_tm_get_args Cls F O I P raw = Cli.tm_get_args I P raw.
+Proof. exact C04SourceArgs.src_tm_get_args_is_model. Qed.
+Print Assumptions C04_model_is_source_cli_args_get_args.
+
+(* the whole command: tm_construct of C04_model_is_source_cli_train_model IS the class found under the name --model, instantiated
+   with the cast --model-param values to which main() has added the experiment space *)
+Theorem C04_model_is_source_cli_args_train_model :
+  forall (Cls F O : Type) (I : Cli.introspect Cls) (P : Cli.pyprims F O) (Scr Sub Sp Mo Th : Type)
+         (construct : Cls -> list (Cli.str * Cli.pval F O) -> result Mo)
+         (L : Cli.tm_lib Scr Sub Sp (list (Cli.str * Cli.pval F O)) Mo Th) (raw : Cli.tm_ns Cls F O),
+  SrcCliArgs.src_cli_train_model_cmd Cls F O I P Scr Sub Sp Mo Th construct L raw
+  = Cli.cli_train_model_cmd I P construct L raw.
+Proof. exact C04SourceArgs.src_cli_train_model_cmd_is_model. Qed.
+Print Assumptions C04_model_is_source_cli_args_train_model.
+
+Theorem C04_model_is_source_cli_args_train_model_world :
+  forall (Mod Obj F O : Type) (W : Cli.pyworld Mod Obj) (P : Cli.pyprims F O) (Scr Sub Sp Mo Th : Type)
+         (construct : Obj -> list (Cli.str * Cli.pval F O) -> result Mo)
+         (L : Cli.tm_lib Scr Sub Sp (list (Cli.str * Cli.pval F O)) Mo Th) (raw : Cli.tm_ns Obj F O),
+  SrcCliArgs.src_cli_train_model_cmd Obj F O (C18SourceIntrospect.introspect_src W) P Scr Sub Sp Mo Th construct L raw
+  = Cli.cli_train_model_cmd (Cli.introspect_of W) P construct L raw.
+Proof. exact C04SourceArgs.src_cli_train_model_cmd_world. Qed.
+Print Assumptions C04_model_is_source_cli_args_train_model_world.
